@@ -1,15 +1,15 @@
 #!/bin/sh
-# runs every stored mutant (seeded/, mutants/) against the quick check of its property in scratch copies;
-# writes mutants/RESULTS.txt. Not used by any registered command.
+# runs every stored mutant (seeded/, mutants/) against the quick check of its property in scratch copies, three at a
+# time; writes mutants/RESULTS.txt. Not used by any registered command.
 # The saved regression inputs are switched off (VERIF_NO_REGRESS): a detection counts only if the generated search finds it.
 cd /verif
 export VERIF_NO_REGRESS=1
-OUT=mutants/RESULTS.txt; : > $OUT
+OUT=mutants/RESULTS.txt; JOBS=$(mktemp)
 for d in seeded/*/; do
   n=$(basename $d); id=${n%-*}
   [ "$n" = "C05-B" ] && id=C16
   c=$(python3 -c "import json;print(json.load(open('$d/meta.json')).get('check',''))" 2>/dev/null); [ -n "$c" ] && id=$c
-  tools/mutant_wt.sh $d/patch.diff $id quick | grep MUTANT >> $OUT
+  echo "$d/patch.diff $id" >> $JOBS
 done
 # reverts of the repairs: property from the fixed: line
 for p in mutants/revert-*.patch mutants/hand-*.patch; do
@@ -27,7 +27,9 @@ for p in mutants/revert-*.patch mutants/hand-*.patch; do
     hand-atom*|hand-varcounter*) id=C14;;
     *) id="";;
   esac
-  [ -n "$id" ] && tools/mutant_wt.sh $p $id quick | grep MUTANT >> $OUT
+  [ -n "$id" ] && echo "$p $id" >> $JOBS
 done
+xargs -P 3 -L 1 sh -c 'tools/mutant_wt.sh $0 $1 quick | grep MUTANT' < $JOBS | sort > $OUT
 echo "detected: $(grep -c 'exit 1' $OUT)  missed: $(grep -c 'exit 0' $OUT)  n/a: $(grep -c 'exit 2' $OUT)" >> $OUT
+rm -f $JOBS
 tail -1 $OUT
